@@ -31,11 +31,14 @@ structure PV where
   l : Nat
   r : Nat
   succ : Bool
+  /-- ghost `gResp`: a transaction-matched success response arrived on the pair -/
+  resp : Bool
   deriving DecidableEq, Repr
 
 def cv (c : Cand) : CV := ⟨c.uid, c.addr⟩
-def pv (p : Pair) : PV := ⟨p.id, p.l, p.r, p.state == .succeeded⟩
-def pdv (p : Pending) : Nat × Nat := (p.tid, p.dest)
+def pv (p : Pair) : PV := ⟨p.id, p.l, p.r, p.state == .succeeded, p.gResp⟩
+/-- a pending transaction as a log entry: `(tid, source address, destination address)` -/
+def pdv (p : Pending) : Nat × Nat × Nat := (p.tid, p.src, p.dest)
 def isLive (s : ConnState) : Bool := s == .connected || s == .disconnected
 
 structure View where
@@ -44,7 +47,7 @@ structure View where
   nextTid : Nat
   nextUid : Nat
   nextPairID : Nat
-  pend : List (Nat × Nat)
+  pend : List (Nat × Nat × Nat)
   locs : List CV
   rems : List CV
   pairs : List PV
@@ -129,8 +132,8 @@ structure AInv (v : View) (L : Log) : Prop where
   logSane : ∀ e ∈ L, Sane e.2.1
   /-- … to admissible remote addresses -/
   logSaneR : ∀ e ∈ L, SaneR e.2.2
-  /-- K3: every pending transaction is a logged request to the recorded destination -/
-  pendOK : ∀ pd ∈ v.pend, ∃ f, (pd.1, f, pd.2) ∈ L
+  /-- K3: every pending transaction is a logged request from the recorded source to the recorded destination -/
+  pendOK : ∀ pd ∈ v.pend, pd ∈ L
   locSane : ∀ c ∈ v.locs, Sane c.addr
   remSane : ∀ c ∈ v.rems, SaneR c.addr
   uidL : ∀ c ∈ v.locs, c.uid < v.nextUid
@@ -142,6 +145,10 @@ structure AInv (v : View) (L : Log) : Prop where
   /-- K4: a succeeded pair of a full agent lies on a `Good` address pair -/
   succOK : lite = false → ∀ p ∈ v.pairs, p.succ = true →
     ∃ la ra, Good la ra ∧ (∀ x, addrOf v.locs p.l = some x → x = la) ∧ (∀ x, addrOf v.rems p.r = some x → x = ra)
+  /-- K5: a pair with a transaction-matched success response (ghost `gResp`; lite or full agent) had a request
+  of this agent logged from ITS local address to ITS remote address -/
+  respOK : ∀ p ∈ v.pairs, p.resp = true →
+    ∃ e ∈ L, (∀ x, addrOf v.locs p.l = some x → x = e.2.1) ∧ (∀ x, addrOf v.rems p.r = some x → x = e.2.2)
   /-- the selected pair is listed and succeeded -/
   selOK : ∀ id, v.sel = some id → ∃ p ∈ v.pairs, p.id = id ∧ p.succ = true
   /-- Connected / Disconnected only with a selected pair -/
@@ -156,17 +163,17 @@ theorem AInv.anyGood {v : View} {L : Log} (h : AInv Good Sane SaneR tag lite v L
   exact ⟨la, ra, hg⟩
 
 /-- the log only grows at the end (no new request): anything that only shrinks `pend`. -/
-theorem AInv.pendSub {v : View} {L : Log} (h : AInv Good Sane SaneR tag lite v L) (pend' : List (Nat × Nat))
+theorem AInv.pendSub {v : View} {L : Log} (h : AInv Good Sane SaneR tag lite v L) (pend' : List (Nat × Nat × Nat))
     (hsub : ∀ x ∈ pend', x ∈ v.pend) : AInv Good Sane SaneR tag lite { v with pend := pend' } L :=
   { h with pendOK := fun pd hpd => h.pendOK pd (hsub pd hpd) }
 
 /-- a Binding request is sent: new tid from the counter, new pending entry, new log entry. -/
-theorem AInv.addReq {v : View} {L : Log} (h : AInv Good Sane SaneR tag lite v L) (pend' : List (Nat × Nat))
+theorem AInv.addReq {v : View} {L : Log} (h : AInv Good Sane SaneR tag lite v L) (pend' : List (Nat × Nat × Nat))
     (hsub : ∀ x ∈ pend', x ∈ v.pend) (f dest : Nat) (hf : Sane f) (hd : SaneR dest) :
-    AInv Good Sane SaneR tag lite { v with nextTid := v.nextTid + 1, pend := pend' ++ [(2 * v.nextTid + v.tag, dest)] }
+    AInv Good Sane SaneR tag lite { v with nextTid := v.nextTid + 1, pend := pend' ++ [(2 * v.nextTid + v.tag, f, dest)] }
       (L ++ [(2 * v.nextTid + v.tag, f, dest)]) := by
   have htag := h.tag_eq
-  refine { h with logOK := ?_, logFun := ?_, logSane := ?_, logSaneR := ?_, pendOK := ?_ }
+  refine { h with logOK := ?_, logFun := ?_, logSane := ?_, logSaneR := ?_, pendOK := ?_, respOK := ?_ }
   · intro e he
     rcases List.mem_append.mp he with he | he
     · obtain ⟨n, hn, hen⟩ := h.logOK e he
@@ -193,21 +200,23 @@ theorem AInv.addReq {v : View} {L : Log} (h : AInv Good Sane SaneR tag lite v L)
     · simp at he; rw [he]; exact hd
   · intro pd hpd
     rcases List.mem_append.mp hpd with hpd | hpd
-    · obtain ⟨f', hf'⟩ := h.pendOK pd (hsub pd hpd)
-      exact ⟨f', List.mem_append_left _ hf'⟩
+    · exact List.mem_append_left _ (h.pendOK pd (hsub pd hpd))
     · simp at hpd
-      exact ⟨f, by rw [hpd]; simp⟩
+      rw [hpd]; simp
+  · intro p hp hr
+    obtain ⟨e, he, h1, h2⟩ := h.respOK p hp hr
+    exact ⟨e, List.mem_append_left _ he, h1, h2⟩
 
 /-- `wipe` together with a state that is neither Connected nor Disconnected. -/
 theorem AInv.wipe {v : View} {L : Log} (h : AInv Good Sane SaneR tag lite v L) :
     AInv Good Sane SaneR tag lite { v with pend := [], locs := [], rems := [], pairs := [], sel := none, live := false } L := by
   refine { h with pendOK := ?_, locSane := ?_, remSane := ?_, uidL := ?_, uidR := ?_, uniqR := ?_, pairId := ?_, pairUniq := ?_,
-                  pairUid := ?_, succOK := ?_, selOK := ?_, connOK := ?_ } <;> simp
+                  pairUid := ?_, succOK := ?_, respOK := ?_, selOK := ?_, connOK := ?_ } <;> simp
 
 /-- Close: candidates deleted, state Closed. -/
 theorem AInv.close {v : View} {L : Log} (h : AInv Good Sane SaneR tag lite v L) :
     AInv Good Sane SaneR tag lite { v with locs := [], rems := [], live := false } L := by
-  refine { h with locSane := ?_, remSane := ?_, uidL := ?_, uidR := ?_, uniqR := ?_, succOK := ?_, connOK := ?_ }
+  refine { h with locSane := ?_, remSane := ?_, uidL := ?_, uidR := ?_, uniqR := ?_, succOK := ?_, respOK := ?_, connOK := ?_ }
   · simp
   · simp
   · simp
@@ -216,6 +225,9 @@ theorem AInv.close {v : View} {L : Log} (h : AInv Good Sane SaneR tag lite v L) 
   · intro hl p hp hs
     obtain ⟨la, ra, hg, _⟩ := h.succOK hl p hp hs
     exact ⟨la, ra, hg, by simp [addrOf], by simp [addrOf]⟩
+  · intro p hp hr
+    obtain ⟨e, he, _⟩ := h.respOK p hp hr
+    exact ⟨e, he, by simp [addrOf], by simp [addrOf]⟩
   · simp
 
 /-- the connection state changes. -/
@@ -237,7 +249,7 @@ theorem AInv.select {v : View} {L : Log} (h : AInv Good Sane SaneR tag lite v L)
 /-- a local candidate with a fresh uid is appended. -/
 theorem AInv.addLocal {v : View} {L : Log} (h : AInv Good Sane SaneR tag lite v L) (addr : Nat) (hs : Sane addr) :
     AInv Good Sane SaneR tag lite { v with nextUid := v.nextUid + 1, locs := v.locs ++ [⟨v.nextUid, addr⟩] } L := by
-  refine { h with locSane := ?_, uidL := ?_, uidR := ?_, pairUid := ?_, succOK := ?_ }
+  refine { h with locSane := ?_, uidL := ?_, uidR := ?_, pairUid := ?_, succOK := ?_, respOK := ?_ }
   · intro c hc
     rcases List.mem_append.mp hc with hc | hc
     · exact h.locSane c hc
@@ -255,11 +267,18 @@ theorem AInv.addLocal {v : View} {L : Log} (h : AInv Good Sane SaneR tag lite v 
     rw [addrOf_append_fresh] at hx
     · exact h1 x hx
     · exact Nat.ne_of_lt (h.pairUid p hp).1
+  · intro p hp hr
+    obtain ⟨e, he, h1, h2⟩ := h.respOK p hp hr
+    refine ⟨e, he, ?_, h2⟩
+    intro x hx
+    rw [addrOf_append_fresh] at hx
+    · exact h1 x hx
+    · exact Nat.ne_of_lt (h.pairUid p hp).1
 
 /-- a remote candidate with a fresh uid is appended. -/
 theorem AInv.addRemote {v : View} {L : Log} (h : AInv Good Sane SaneR tag lite v L) (addr : Nat) (hs : SaneR addr) :
     AInv Good Sane SaneR tag lite { v with nextUid := v.nextUid + 1, rems := v.rems ++ [⟨v.nextUid, addr⟩] } L := by
-  refine { h with remSane := ?_, uidL := ?_, uidR := ?_, uniqR := ?_, pairUid := ?_, succOK := ?_ }
+  refine { h with remSane := ?_, uidL := ?_, uidR := ?_, uniqR := ?_, pairUid := ?_, succOK := ?_, respOK := ?_ }
   · intro c hc
     rcases List.mem_append.mp hc with hc | hc
     · exact h.remSane c hc
@@ -282,23 +301,33 @@ theorem AInv.addRemote {v : View} {L : Log} (h : AInv Good Sane SaneR tag lite v
     rw [addrOf_append_fresh] at hx
     · exact h2 x hx
     · exact Nat.ne_of_lt (h.pairUid p hp).2
+  · intro p hp hr
+    obtain ⟨e, he, h1, h2⟩ := h.respOK p hp hr
+    refine ⟨e, he, h1, ?_⟩
+    intro x hx
+    rw [addrOf_append_fresh] at hx
+    · exact h2 x hx
+    · exact Nat.ne_of_lt (h.pairUid p hp).2
 
 /-- remote candidates are removed. -/
 theorem AInv.filterRemotes {v : View} {L : Log} (h : AInv Good Sane SaneR tag lite v L) (q : CV → Bool) :
     AInv Good Sane SaneR tag lite { v with rems := v.rems.filter q } L := by
-  refine { h with remSane := ?_, uidR := ?_, uniqR := ?_, succOK := ?_ }
+  refine { h with remSane := ?_, uidR := ?_, uniqR := ?_, succOK := ?_, respOK := ?_ }
   · intro c hc; exact h.remSane c (List.mem_filter.mp hc).1
   · intro c hc; exact h.uidR c (List.mem_filter.mp hc).1
   · exact h.uniqR.filter q
   · intro hl p hp hsucc
     obtain ⟨la, ra, hg, h1, h2⟩ := h.succOK hl p hp hsucc
     exact ⟨la, ra, hg, h1, fun x hx => h2 x (addrOf_filter h.uniqR q hx)⟩
+  · intro p hp hr
+    obtain ⟨e, he, h1, h2⟩ := h.respOK p hp hr
+    exact ⟨e, he, h1, fun x hx => h2 x (addrOf_filter h.uniqR q hx)⟩
 
 /-- a new pair (Waiting) is appended with the next id. -/
 theorem AInv.addPair {v : View} {L : Log} (h : AInv Good Sane SaneR tag lite v L) (lu ru : Nat)
     (hl : lu < v.nextUid) (hr : ru < v.nextUid) :
-    AInv Good Sane SaneR tag lite { v with nextPairID := v.nextPairID + 1, pairs := v.pairs ++ [⟨v.nextPairID + 1, lu, ru, false⟩] } L := by
-  refine { h with pairId := ?_, pairUniq := ?_, pairUid := ?_, succOK := ?_, selOK := ?_ }
+    AInv Good Sane SaneR tag lite { v with nextPairID := v.nextPairID + 1, pairs := v.pairs ++ [⟨v.nextPairID + 1, lu, ru, false, false⟩] } L := by
+  refine { h with pairId := ?_, pairUniq := ?_, pairUid := ?_, succOK := ?_, respOK := ?_, selOK := ?_ }
   · intro p hp
     rcases List.mem_append.mp hp with hp | hp
     · exact Nat.le_succ_of_le (h.pairId p hp)
@@ -318,6 +347,10 @@ theorem AInv.addPair {v : View} {L : Log} (h : AInv Good Sane SaneR tag lite v L
     rcases List.mem_append.mp hp with hp | hp
     · exact h.succOK hlite p hp hsucc
     · simp at hp; rw [hp] at hsucc; cases hsucc
+  · intro p hp hr
+    rcases List.mem_append.mp hp with hp | hp
+    · exact h.respOK p hp hr
+    · simp at hp; rw [hp] at hr; cases hr
   · intro id hid
     obtain ⟨p, hp, h1, h2⟩ := h.selOK id hid
     exact ⟨p, List.mem_append_left _ hp, h1, h2⟩
@@ -362,15 +395,17 @@ theorem pairwise_ids_iff {l l' : List PV} (h : l'.map (·.id) = l.map (·.id)) :
   rw [e1, e2, h]
 
 /-- the pair `p0` (the only one with id `id`) is replaced by `g p0` where `g` keeps id and local uid;
-obligations for the new remote uid and the new success flag. -/
+obligations for the new remote uid, the new success flag and the new response flag. -/
 theorem AInv.updPair {v : View} {L : Log} (h : AInv Good Sane SaneR tag lite v L) (id : Nat) (g : PV → PV)
     (hid : ∀ p, (g p).id = p.id) (hl : ∀ p, (g p).l = p.l)
     (hr : ∀ p ∈ v.pairs, p.id = id → (g p).r < v.nextUid)
     (hsucc : lite = false → ∀ p ∈ v.pairs, p.id = id → (g p).succ = true →
       ∃ la ra, Good la ra ∧ (∀ x, addrOf v.locs p.l = some x → x = la) ∧ (∀ x, addrOf v.rems (g p).r = some x → x = ra))
-    (hsel : ∀ p ∈ v.pairs, p.id = id → p.succ = true → (g p).succ = true) :
+    (hsel : ∀ p ∈ v.pairs, p.id = id → p.succ = true → (g p).succ = true)
+    (hresp : ∀ p ∈ v.pairs, p.id = id → (g p).resp = true →
+      ∃ e ∈ L, (∀ x, addrOf v.locs p.l = some x → x = e.2.1) ∧ (∀ x, addrOf v.rems (g p).r = some x → x = e.2.2)) :
     AInv Good Sane SaneR tag lite { v with pairs := updPV v.pairs id g } L := by
-  refine { h with pairId := ?_, pairUniq := ?_, pairUid := ?_, succOK := ?_, selOK := ?_ }
+  refine { h with pairId := ?_, pairUniq := ?_, pairUid := ?_, succOK := ?_, respOK := ?_, selOK := ?_ }
   · intro q hq
     rcases mem_updPV hq with ⟨hq, _⟩ | ⟨p, hp, _, rfl⟩
     · exact h.pairId q hq
@@ -385,6 +420,11 @@ theorem AInv.updPair {v : View} {L : Log} (h : AInv Good Sane SaneR tag lite v L
     · exact h.succOK hlite q hq hqs
     · obtain ⟨la, ra, hg, h1, h2⟩ := hsucc hlite p hp hpid hqs
       exact ⟨la, ra, hg, by rw [hl]; exact h1, h2⟩
+  · intro q hq hqr
+    rcases mem_updPV hq with ⟨hq, _⟩ | ⟨p, hp, hpid, rfl⟩
+    · exact h.respOK q hq hqr
+    · obtain ⟨e, he, h1, h2⟩ := hresp p hp hpid hqr
+      exact ⟨e, he, by rw [hl]; exact h1, h2⟩
   · intro id' hid'
     obtain ⟨p, hp, hpid, hps⟩ := h.selOK id' hid'
     by_cases he : p.id = id
